@@ -31,9 +31,12 @@ PROPS = {
     "C11": ["contracts.c11_cnf"],
     "C12": ["contracts.c12_oracles"],
     "C13": ["contracts.c13_logics"],
+    "C14": ["contracts.c14_walkers", "contracts.c13_logics", "contracts.c12_oracles", "contracts.c04_hashcons"],
+    "C15": ["contracts.c14_walkers", "contracts.c16_tracking", "contracts.c04_hashcons"],
     "C16": ["contracts.c16_tracking"],
     "C17": ["contracts.c17_smtlib_solver"],
     "C18": ["contracts.c18_optimizer"],
+    "C20": ["contracts.c14_walkers"],
 }
 
 
